@@ -10,9 +10,9 @@ TRANSLATORS = ["status_reasons"]
 COQ_PRELUDE = "From Coq Require Import ZArith.\nFrom MV Require Import Model.Http1Msg Model.HttpTranslate.\n"
 RULE = ("22% HTTP/2 requests sent by a real h2 client connection (validation and normalisation off on the peer) through the real "
         "HttpLayer (transparent mode) to an HTTP/1 upstream, whose generated HTTP/1 response comes back over HTTP/2; 18% HTTP/1 requests "
-        "through the real HttpLayer to a real h2 server connection that answers with a generated header block, body and trailers; "
+        "through the real HttpLayer to a real h2 server connection that answers with a generated header block, body and trailers, after which the same flow object is sent again as clientplayback does (MockServer + HttpLayer) to a second h2 server; request state snapshotted at the request hook and after emission; "
         "the rest direct calls: h2.utilities.validate_headers (request / response / trailer flags), parse_h2_request_headers, "
-        "parse_h2_response_headers, format_h2_request_headers, format_h2_response_headers (HTTP/1.x, HTTP/2.0 and HTTP/3 messages, "
+        "parse_h2_response_headers, format_h2_request_headers (called twice on the same request object), format_h2_response_headers (HTTP/1.x, HTTP/2.0 and HTTP/3 messages, "
         "normalize_outbound_headers on/off), validate_headers. Header blocks: 65% well-formed (method/scheme/authority/path or status, "
         "0-5 fields from a dictionary, body with or without matching content-length), 35% mutated from an adversarial dictionary "
         "(CR/LF/NUL/SP/HTAB in pseudo-headers, names and values, upper-case names, connection-specific fields, duplicate / late / "
@@ -279,11 +279,58 @@ def _pa_ok(block):
     return True
 
 
+def _req_state(rq):
+    """the property-relevant state of a live request object"""
+    return {"method": hx(rq.data.method), "scheme": hx(rq.data.scheme), "authority": hx(rq.data.authority), "path": hx(rq.data.path),
+            "fields": _hexblk(rq.headers.fields)}
+
+
+def _snap_policy(store):
+    """remember the request as it is when the `request` hook fires: the last moment before it is emitted upstream"""
+    def policy(hook, drv):
+        if hook.name == "request" and "pre" not in store:
+            store["pre"] = _req_state(hook.args()[0].request)
+    return policy
+
+
+def _replay(flow, validate):
+    """send the same flow object again the way mitmproxy.addons.clientplayback.ReplayHandler does (MockServer in an
+    HttpLayer in transparent mode) towards an HTTP/2 server; -> header list the h2 server decodes (hex) or a string tag"""
+    from mitmproxy.addons.clientplayback import MockServer
+    from mitmproxy.connection import ConnectionState, Server
+    flow.backup()
+    flow.is_replay = "request"
+    flow.response = None
+    flow.error = None
+    ctx = make_context({"validate_inbound_headers": validate})
+    ctx.server = Server(address=("upstream.test", 443))
+    layer = http_layer.HttpLayer(ctx, HTTPMode.transparent)
+    layer.connections[ctx.client] = MockServer(flow, ctx.fork())
+
+    def connect(conn, drv):
+        conn.alpn = b"h2"
+        return None
+    d = Driver(lambda cx: layer, ctx=ctx, connect=connect)
+    d.start()
+    if d.crashed:
+        return "crash:" + d.crashed[0]
+    if len(d.conns) < 2:
+        return "not-sent"
+    peer = _peer(False)
+    peer.initiate_connection()
+    try:
+        reqs = [e for e in peer.receive_data(d.sent(1)) if isinstance(e, h2ev.RequestReceived)]
+    except Exception as e:
+        return "peer:" + type(e).__name__
+    return _hexblk(reqs[0].headers) if reqs else "not-sent"
+
+
 def run_downreq(c):
     block, body, tr = _blk(c["h"]), (None if c["body"] is None else unhx(c["body"])), (None if c["tr"] is None else _blk(c["tr"]))
     ctx = make_context({"validate_inbound_headers": c["v"]}, {"alpn": b"h2"})
     ctx.server.address = ("upstream.test", 80)
-    d = Driver(lambda cx: http_layer.HttpLayer(cx, HTTPMode.transparent), ctx=ctx)
+    snap = {}
+    d = Driver(lambda cx: http_layer.HttpLayer(cx, HTTPMode.transparent), ctx=ctx, policy=_snap_policy(snap))
     d.start()
     peer = _peer(True)
     peer.initiate_connection()
@@ -298,6 +345,8 @@ def run_downreq(c):
         o["peer_exc"] = type(e).__name__
     if len(d.conns) > 1 and not d.crashed:
         o["up"] = hx(d.sent(1))
+        if d.sent(1) and d.flows and "pre" in snap:
+            o["req_pre"], o["req_post"] = snap["pre"], _req_state(d.flows[0].request)
         if d.sent(1):
             line, hdrs, wire = H1_RESPS[c["resp"]]
             n = len(d.sent(0))
@@ -337,7 +386,8 @@ def run_downresp(c):
     def connect(conn, drv):
         conn.alpn = b"h2"
         return None
-    d = Driver(lambda cx: http_layer.HttpLayer(cx, HTTPMode.transparent), ctx=ctx, connect=connect)
+    snap = {}
+    d = Driver(lambda cx: http_layer.HttpLayer(cx, HTTPMode.transparent), ctx=ctx, connect=connect, policy=_snap_policy(snap))
     d.start()
     d.data(0, method + b" " + target + b" HTTP/1.1\r\n" + b"".join(l + b"\r\n" for l in lines) + b"\r\n")
     o = {"crash": d.crashed[0] if d.crashed else None, "down": None, "req_h": None, "flow_req": None, "goaway": False, "closed": False,
@@ -358,9 +408,8 @@ def run_downresp(c):
         o["down"] = hx(d.sent(0))
         return o
     o["req_h"] = _hexblk(reqs[0].headers)
-    rq = f.request
-    o["flow_req"] = {"method": hx(rq.data.method), "scheme": hx(rq.data.scheme), "authority": hx(rq.data.authority), "path": hx(rq.data.path),
-                     "fields": _hexblk(rq.headers.fields)}
+    o["flow_req"] = snap.get("pre") or _req_state(f.request)      # the request as it was just before the first emission
+    o["req_post"] = _req_state(f.request)                          # ... and the live object after it
     sid = reqs[0].stream_id
     informational = any(n == b":status" and v.startswith(b"1") for n, v in block)
     _send_msg(peer, sid, block, body, tr, informational)
@@ -376,6 +425,12 @@ def run_downresp(c):
                 o["goaway"] = True
     except Exception as e:
         o["peer_exc"] = type(e).__name__
+    # second emission of the very same flow object (client replay), again towards an HTTP/2 server
+    if not d.crashed and not o.get("peer_exc"):
+        try:
+            o["req_h2"] = _replay(f, c["v"])
+        except Exception as e:
+            o["req_h2"] = "exc:" + type(e).__name__
     return o
 
 
@@ -446,7 +501,11 @@ def run_impl(case):
             ev = http_layer.ResponseHeaders(1, resp, True)
             g = _http2.format_h2_response_headers(ctx, ev)
         try:
-            return {"res": _hexblk(_enc(_drain(g)))}
+            o = {"res": _hexblk(_enc(_drain(g)))}
+            if k == "fmtreq":
+                o["after"] = _hexblk(ev.request.headers.fields)
+                o["res2"] = _hexblk(_enc(_drain(_http2.format_h2_request_headers(ctx, http_layer.RequestHeaders(1, ev.request, True)))))
+            return o
         except UnicodeEncodeError:
             return {"res": None, "exc": "UnicodeEncodeError"}
         except Exception as e:
@@ -520,8 +579,9 @@ def coq_case(case, obs):
         return f"ParseResp {chdrs(case['h'])} {impl}"
     if k == "fmtreq":
         is_h2 = not case["ver"].startswith("HTTP/1")
-        return (f"FmtReq {cbool(case['norm'])} {cbool(is_h2)} {cbytes(unhx(case['method']))} {cbytes(unhx(case['scheme']))} "
-                f"{cbytes(unhx(case['authority']))} {cbytes(unhx(case['path']))} {chdrs(case['fields'])} {chdrs(obs['res'])}")
+        return (f"EmitTwice {cbool(case['norm'])} {cbool(is_h2)} {cbytes(unhx(case['method']))} {cbytes(unhx(case['scheme']))} "
+                f"{cbytes(unhx(case['authority']))} {cbytes(unhx(case['path']))} {chdrs(case['fields'])} {chdrs(obs['res'])} "
+                f"{chdrs(obs['res2'])} {chdrs(obs['after'])}")
     if k == "fmtresp":
         is_h2 = not case["ver"].startswith("HTTP/1")
         return f"FmtResp {cbool(case['norm'])} {cbool(is_h2)} {cZ(case['status'])} {chdrs(case['fields'])} {chdrs(obs['res'])}"
@@ -535,6 +595,8 @@ def coq_case(case, obs):
         if oc is None:
             oc = "OUndecided"             # an observation the model cannot produce: reported as a disagreement
         main = f"DownReq {cbool(obs['pa'])} {chdrs(case['h'])} {cobytes(case['body'])} {tr} {oc}"
+        if obs.get("req_pre"):
+            main = f"Both ({main}) (EmitH1State {chdrs(obs['req_pre']['fields'])} {chdrs(obs['req_post']['fields'])})"
         fr = obs.get("flow_resp")
         if fr and obs.get("resp_h") is not None and not obs.get("crash2"):
             second = f"FmtResp true false {cZ(fr['status'])} {chdrs(fr['fields'])} {chdrs(obs['resp_h'])}"
@@ -546,8 +608,12 @@ def coq_case(case, obs):
         oc = _outcome_resp(obs) or "OUndecided"
         main = f"DownResp {cbytes(unhx(obs['method']))} {chdrs(case['h'])} {cobytes(case['body'])} {tr} {oc}"
         q = obs["flow_req"]
-        second = (f"FmtReq true false {cbytes(unhx(q['method']))} {cbytes(unhx(q['scheme']))} {cbytes(unhx(q['authority']))} "
-                  f"{cbytes(unhx(q['path']))} {chdrs(q['fields'])} {chdrs(obs['req_h'])}")
+        args = (f"true false {cbytes(unhx(q['method']))} {cbytes(unhx(q['scheme']))} {cbytes(unhx(q['authority']))} "
+                f"{cbytes(unhx(q['path']))} {chdrs(q['fields'])} {chdrs(obs['req_h'])}")
+        if isinstance(obs.get("req_h2"), list):
+            second = f"EmitTwice {args} {chdrs(obs['req_h2'])} {chdrs(obs['req_post']['fields'])}"
+        else:
+            second = f"FmtReq {args}"
         return f"Both ({main}) ({second})"
     raise AssertionError(k)
 
@@ -652,6 +718,9 @@ def oracle_downreq(c, o):
             bad("cookie-changed", f"cookies {want_cookie} became {got_cookie}")
         if q["body"] != body:
             bad_framing("body-changed", f"body {_show(body)} read as {_show(q['body'])}")
+    # writing the request as HTTP/1 must not change the live request object
+    if o.get("req_pre") and o["req_pre"] != o["req_post"]:
+        bad("translation-mutates-request", f"flow.request changed by its emission over HTTP/1: {o['req_pre']} -> {o['req_post']}")
     # the HTTP/1 response relayed over HTTP/2
     fr = o.get("flow_resp")
     if fr and o.get("resp_h") is not None:
@@ -696,6 +765,21 @@ def oracle_downresp(c, o):
         got, got_cookie = _sem(_regular(rh), set())
         if want != got or want_cookie != got_cookie:
             bad("up-fields-changed", f"HTTP/1 request fields {want} {want_cookie} became {got} {got_cookie}")
+        # purity: the emission leaves the live request as it was; a replay of the same flow says the same
+        if o.get("flow_req") and o.get("req_post") and o["flow_req"] != o["req_post"]:
+            lost = [x for x in o["flow_req"]["fields"] if x not in o["req_post"]["fields"]]
+            bad("translation-mutates-request", f"flow.request changed by its emission over HTTP/2: fields {[(_show(unhx(n)), _show(unhx(x))) for n, x in lost]} "
+                                               f"removed from the live request ({method.decode()} {target.decode()}, {lines})")
+        r2 = o.get("req_h2")
+        if isinstance(r2, str) and r2 != "not-sent":
+            bad("replay-" + r2.replace(":", "-"), f"client replay of the flow {method.decode()} {target.decode()} {lines} failed: {r2}")
+        elif isinstance(r2, list):
+            auth = lambda hs: [x for n, x in _blk(hs) if n.lower() in (b":authority", b"host")]
+            if auth(r2) != auth(o["req_h"]):
+                bad("replay-authority-lost", f"first emission of {method.decode()} {target.decode()} {lines} carried authority {auth(o['req_h'])}, "
+                                             f"client replay of the same flow carried {auth(r2)}")
+            elif r2 != o["req_h"]:
+                bad("replay-emission-differs", f"first emission {_blk(o['req_h'])}, client replay of the same flow {_blk(r2)}")
     if o.get("error") is not False or not o["down"]:
         return v
     down = unhx(o["down"])
@@ -766,6 +850,10 @@ def oracle(case, obs):
         if not rh or rh[0] != (b":status", b"%d" % case["status"]):
             return [{"key": "status-changed", "what": f"status {case['status']} formatted as {rh[:1]}"}]
     if k == "fmtreq" and obs["res"] is not None:
+        if obs["after"] != case["fields"]:
+            return [{"key": "translation-mutates-request", "what": f"format_h2_request_headers changed event.request.headers: {_blk(case['fields'])} -> {_blk(obs['after'])}"}]
+        if obs["res2"] != obs["res"]:
+            return [{"key": "replay-emission-differs", "what": f"second format_h2_request_headers call on the same request: {_blk(obs['res'])} then {_blk(obs['res2'])}"}]
         ps = _pseudo(_blk(obs["res"]))
         if (ps.get(b":method"), ps.get(b":scheme"), ps.get(b":path")) != (unhx(case["method"]), unhx(case["scheme"]), unhx(case["path"])):
             return [{"key": "up-request-line-changed", "what": f"pseudo-headers {ps}"}]
@@ -802,6 +890,7 @@ def classify(case, obs):
         tags.append("downresp:" + oc.split(" ")[0].strip("("))
         if obs.get("closed"):
             tags.append("downresp:closed")
+        tags.append("downresp:replayed" if isinstance(obs.get("req_h2"), list) else "downresp:no-replay")
     elif k == "h2val":
         tags.append(("h2val-resp" if case["resp"] else "h2val-trailer" if case["trailer"] else "h2val-req") + (":ok" if obs.get("ok") else ":rejected"))
     elif k in ("parsereq", "parseresp", "fmtreq", "fmtresp"):
